@@ -134,7 +134,7 @@ func c08Cases(tier string) []c08Case {
 		add("operation-ids", "operationId same on two methods --skip-validation", d2, "--skip-validation")
 	}
 	// tags that become the same package
-	for _, tags := range [][]string{{"a-b", "a_b"}, {"v1", "V1"}, {"operations", "x"}, {"a b", "ab"}, {"restapi", "models"}} {
+	for _, tags := range [][]string{{"a-b", "a_b"}, {"v1", "V1"}, {"operations", "x"}, {"a b", "ab"}, {"restapi", "models"}, {"api", "apiops"}, {"models", "modelsops"}, {"Models", "x"}, {"operations", "operationsops"}} {
 		d := c08Base()
 		for i, t := range tags {
 			o := c08Op(fmt.Sprintf("op%d", i))
